@@ -292,7 +292,7 @@ def _eq_polarity(prog, q):
     return has_eq
 
 
-def _gate_edges(prog, mod, q, preds):
+def _gate_edges(prog, mod, q, preds, _depth=0):
     """CFG edges of q that are taken only when the hull is fresh."""
     b = prog.bodies[q]
     al = mod.aliases(q)
@@ -342,10 +342,12 @@ def _gate_edges(prog, mod, q, preds):
                 if fresh is not None:
                     edges.add((sbb, fresh))
                     descr.append('%s(creation_generation, tds.generation()) line %d' % (s.rv.raw['op'], s.line))
-    # (ii) call of a bool predicate helper with (self, tri)
+    # (ii) call of a bool predicate helper with (self, tri); (iii) call of a Result-returning freshness gate
+    #      (`self.ensure_fresh(tri)?`): a hull method whose every Ok exit lies behind a fresh edge of its own
+    rgates = _result_gates(prog, mod, preds) if _depth == 0 else set()
     for bb, t in b.calls():
         name = t.resolved or t.callee
-        if name in preds:
+        if name in preds or name in rgates:
             tg = [al.operand_target(o) for o in t.args]
             if not any(x and x[0] in tri for x in tg):
                 continue
@@ -354,6 +356,32 @@ def _gate_edges(prog, mod, q, preds):
                 edges |= cf.ok_edges
                 descr.append('%s line %d' % (name.rsplit('::', 1)[-1], t.line))
     return edges, descr
+
+
+_RGATES = {}
+
+
+def _result_gates(prog, mod, preds):
+    key = (id(prog), frozenset(preds))
+    if key in _RGATES:
+        return _RGATES[key]
+    out = set()
+    _RGATES[key] = out
+    import gate
+    for q, b in prog.bodies.items():
+        if b.kind == 'closure' or not q.startswith(HULL + '::') or flow.type_kind(b.locals[0]) != 'result':
+            continue
+        if not _tri_params(b):
+            continue
+        edges, _ = _gate_edges(prog, mod, q, preds, _depth=1)
+        if not edges:
+            continue
+        # no call that receives the triangulation other than the gate itself (a pure gate, not a query)
+        reach = flow.reach_edges(b, [0], avoid_edges=edges)
+        oks = [e['bb'] for e in gate.success_exit_blocks(b)]
+        if oks and not any(x in reach for x in oks):
+            out.add(q)
+    return out
 
 
 def _check_method(prog, mod, q, guarded, preds):
